@@ -84,6 +84,7 @@ def c08(ctx):
     _g(ctx, shape.run, builders=True, cross=True, ids=False)
     _g(ctx, dt.run, pairs=True)
     _g(ctx, verify.run, kinds=['matcher'], opmap=False, simtable=False)
+    _g(ctx, mask.run, candset=True, matcher=True)
     _g(ctx, split.run, table=False)
 
 
@@ -121,6 +122,11 @@ def c12(ctx):
 def c13(ctx):
     _g(ctx, form.run, ALL5, 'safe')
     _g(ctx, verify.run, ni=True, simtable=False)
+    # prerequisites of transposition / refinement: whatever loses or invents a pair on one side only
+    _g(ctx, once.run, extrema=True, caches=True)
+    _g(ctx, cand.run, unique=True, provenance=False)
+    _g(ctx, order.run)
+    _g(ctx, wire.run, rows=False, arrays=False)
 
 
 def c14(ctx):
@@ -128,6 +134,11 @@ def c14(ctx):
        funcs=['get_size_lower_bound', 'get_size_upper_bound'])
     _g(ctx, dt.run, pairs=True)
     _g(ctx, cand.run, slices=True, unique=False, provenance=True, window=True, prune=True, consume=False)
+    # Position subset of Prefix and of Size presupposes one shared token order and aligned indexes
+    _g(ctx, order.run)
+    _g(ctx, once.run, extrema=True)
+    _g(ctx, wire.run, ordering=True, same=True, rows=False, arrays=False, measure=False)
+    _g(ctx, missempty.run, miss=False)
 
 
 def c15(ctx):
